@@ -35,12 +35,12 @@ Inductive backend :=
 | BGpkgLevel                  (* GeopackageLevelCache *)
 | BCompact.                   (* CompactCacheV1 / V2 *)
 
-(* class attribute supports_timestamp as seed/config.py reads it.  GeopackageLevelCache does not override
-   TileCacheBase.supports_timestamp = True although its level caches are built with with_timestamps=False. *)
+(* class attribute supports_timestamp as seed/config.py reads it (GeopackageLevelCache sets it to False: its
+   level caches are built with with_timestamps=False). *)
 Definition supports_timestamp (b : backend) : bool :=
   match b with
   | BFile _ => true | BMbtiles ts => ts | BSqlite => true
-  | BGpkg => false | BGpkgLevel => true | BCompact => false
+  | BGpkg => false | BGpkgLevel => false | BCompact => false
   end.
 
 (* does load_tile_metadata report a stored time (otherwise it reports -1) *)
@@ -86,11 +86,12 @@ Definition tile_dir (lay : layout) (l : Z) : option dname :=
   | LRevTms | LQuadkey => None
   end.
 
-(* path.py location_funcs: the level_location function of the layout, applied to an int level.
-   'tms' is paired with level_location (not level_location_tms), which formats "%02d". *)
+(* path.py location_funcs: the level_location function of the layout, applied to an int level
+   ('tms' is paired with level_location_tms: str(level)). *)
 Definition level_dir (lay : layout) (l : Z) : option dname :=
   match lay with
-  | LTc | LMp | LTms => Some (DPad l)
+  | LTc | LMp => Some (DPad l)
+  | LTms => Some (DPlain l)
   | LArcgis => Some (DArc l)
   | LRevTms => None        (* FileCache sets self.level_location = None *)
   | LQuadkey => None       (* no_level_location raises NotImplementedError *)
@@ -301,26 +302,23 @@ Definition older_of (s : strat) (b : backend) (q T : Z) (t : Z) : bool :=
 
 Inductive when := WAll | WBefore (T : Z) | WDefault.   (* remove_all: true | remove_before | neither *)
 
-(* CleanupConfiguration.__init__ + one iteration of cleanup_tasks for one cache.  self.remove_all is an
-   attribute of the configuration object and is assigned inside the loop, so it is threaded through.
-   Result: None = SeedConfigurationError, Some (remove_timestamp, remove_all). *)
-Definition conf_step (init_time : Z) (w : when) (sticky_all : bool) (b : backend)
-  : option (Z * bool) * bool :=
+(* CleanupConfiguration.__init__ + one iteration of cleanup_tasks for one cache: remove_all starts from the
+   configured value for every cache.  Result: None = SeedConfigurationError, Some (remove_timestamp, remove_all). *)
+Definition conf_step (init_time : Z) (w : when) (all : bool) (b : backend) : option (Z * bool) :=
   let ts := match w with WBefore T => T | _ => init_time end in
-  if supports_timestamp b then (Some (ts, sticky_all), sticky_all)
+  if supports_timestamp b then Some (ts, all)
   else match w with
-       | WBefore _ => (None, sticky_all)
-       | _ => (Some (ts, true), true)
+       | WBefore _ => None
+       | _ => Some (ts, true)
        end.
 
-Fixpoint conf_tasks (init_time : Z) (w : when) (sticky_all : bool) (bs : list backend)
+Fixpoint conf_tasks (init_time : Z) (w : when) (all : bool) (bs : list backend)
   : list (option (Z * bool)) :=
   match bs with
   | [] => []
-  | b :: r => let '(res, s') := conf_step init_time w sticky_all b in
-              match res with
+  | b :: r => match conf_step init_time w all b with
               | None => [None]                         (* the exception ends the generator *)
-              | Some _ => res :: conf_tasks init_time w s' r
+              | Some x => Some x :: conf_tasks init_time w all r
               end
   end.
 
@@ -430,20 +428,13 @@ Definition check_conf (c : Z * when * list backend * list (option (Z * bool))) :
   list_eqb (opt_eqb (pair_eqb Z.eqb Bool.eqb)) (conf_tasks init w (conf_all w) bs) obs.
 
 (* ------------------------------------------------------------------ side conditions of the theorems
-   (each one excludes a defect of the implementation that the model reproduces) *)
+   (dim_visible excludes the known finding F15, which the model reproduces) *)
 
 (* F15: the tile is not stored below a dimension directory (backends that ignore dimensions: always true) *)
 Definition dim_visible (b : backend) (e : entry) : bool :=
   match e_place e with
   | PTile dim _ _ _ => match b with BFile _ | BCompact => dim =? 0 | _ => true end
   | _ => true
-  end.
-
-(* 'tms' layout: the directory of the level has the name level_location computes (two digits or more) *)
-Definition level_dir_named (b : backend) (e : entry) : bool :=
-  match b, e_place e with
-  | BFile LTms, PTile _ l _ _ => 10 <=? l
-  | _, _ => true
   end.
 
 (* the level containers (directory / database / bundle directory) of the selected levels *)
